@@ -1,4 +1,167 @@
 import EaselModel.Core.Proto
-/-! Line-protocol driver for the C11 model (stub: answers bad-op until the model lands). -/
-open EaselModel.Proto
-def main : IO Unit := runDriver () (fun s _ => (s, "bad-op"))
+import EaselModel.Stats.Histogram
+import EaselModel.Stats.Fit
+/-! Line-protocol driver for the C11 model (histogram + maximum-likelihood fits) over `Float`. -/
+open EaselModel EaselModel.Proto EaselModel.Stats
+
+structure S where
+  h : Option (Hist Float) := none
+  xs : Array Float := #[]
+
+def hex64 (x : UInt64) : String :=
+  let s := (Nat.toDigits 16 x.toNat)
+  String.ofList (List.replicate (16 - s.length) '0' ++ s)
+
+def fb (x : Float) : String := hex64 x.toBits
+
+def parseHex (w : String) : Option Nat :=
+  w.toList.foldl (fun acc c => acc.bind fun a => (hexVal c).map fun d => a * 16 + d) (some 0)
+
+def parseBits (w : String) : Option Float := (parseHex w).map fun n => Float.ofBits (UInt64.ofNat n)
+
+def parseBitsList (s : String) : Array Float :=
+  if s == "-" then #[] else
+  (s.splitOn ",").foldl (fun acc w => match parseBits w with | some f => acc.push f | none => acc) #[]
+
+def argF (ws : List String) (k : String) : Option Float := (arg? ws k).bind parseBits
+
+def fnv (h : UInt64) (x : UInt64) : UInt64 := (h ^^^ x) * (0x100000001b3 : UInt64)
+
+def hashF (xs : Array Float) (lo : Nat) : UInt64 := Id.run do
+  let mut h : UInt64 := 0xcbf29ce484222325
+  for i in [lo:xs.size] do
+    h := fnv h xs[i]!.toBits
+  return h
+
+def dsName : Dataset → String
+  | .complete => "complete" | .virtualCensored => "virtual" | .trueCensored => "true"
+
+def b01 (b : Bool) : String := if b then "1" else "0"
+
+def obsStr (obs : Array Nat) : String := Id.run do
+  let mut parts : Array String := #[]
+  for i in [0:obs.size] do
+    let c := obs[i]!
+    if c != 0 then parts := parts.push s!"{i}:{c}"
+  return if parts.isEmpty then "-" else ",".intercalate parts.toList
+
+def dump (h : Hist Float) : String :=
+  s!"ok nb={h.nb} bmin={fb h.bmin} bmax={fb h.bmax} w={fb h.w} imin={h.imin} imax={h.imax} xmin={fb h.xmin} xmax={fb h.xmax} " ++
+  s!"n={h.n} nc={h.nc} no={h.no} z={h.z} cmin={h.cmin} phi={fb h.phi} full={b01 h.isFull} done={b01 h.isDone} " ++
+  s!"rounded={b01 h.isRounded} ds={dsName h.datasetIs} obs={obsStr h.obs}"
+
+def tailStr (h : Hist Float) (mid : Nat) : String :=
+  let nt := h.n - mid
+  let first := if nt > 0 then fb (h.x.getD mid 0.0) else "-"
+  let last := if nt > 0 then fb (h.x.getD (h.n - 1) 0.0) else "-"
+  s!"ok n={nt} z={mid} first={first} last={last} hash={hex64 (hashF h.x mid)}"
+
+def stLetter : St → Char
+  | .ok => 'o' | .einval => 'i' | .erange => 'r' | .emem => 'm' | .enoresult => 'n' | .enohalt => 'h'
+
+def fitOut : FitRes Float → String
+  | .fault => "fault"
+  | .hang => "fault hang"
+  | .res st ps => st.name ++ ps.foldl (fun acc p => acc ++ " " ++ fb p) ""
+
+def stepH (s : S) (ws : List String) (h : Hist Float) : S × String :=
+  match ws with
+  | "hadd" :: _ =>
+    let xs := parseBitsList ((arg? ws "xs").getD "-")
+    let rec go (i : Nat) (fuel : Nat) (h : Hist Float) (acc : List Char) : Option (Hist Float) × List Char :=
+      match fuel with
+      | 0 => (some h, acc)
+      | fuel+1 =>
+        if i < xs.size then
+          match h.add xs[i]! with
+          | .fault => (none, acc)
+          | .val (st, h') => go (i+1) fuel h' (stLetter st :: acc)
+        else (some h, acc)
+    match go 0 (xs.size + 1) h [] with
+    | (some h', acc) => ({ s with h := some h' }, "st=" ++ String.ofList acc.reverse)
+    | (none, _) => (s, "fault")
+  | "hscore" :: _ =>
+    match argF ws "x" with
+    | some x => let (st, b) := h.score2bin x; (s, s!"{st.name} b={b}")
+    | none => (s, "bad-op")
+  | "hdump" :: _ => (s, dump h)
+  | "hrank" :: _ =>
+    match argInt? ws "r" with
+    | some r =>
+      match h.getRank r with
+      | .fault => (s, "fault")
+      | .val (st, h', v) => ({ s with h := some h' }, if st == .ok then s!"ok {fb v}" else st.name)
+    | none => (s, "bad-op")
+  | "htail" :: _ =>
+    match argF ws "phi" with
+    | some phi =>
+      match h.getTail phi with
+      | .fault => (s, "fault")
+      | .val (st, h', mid) => ({ s with h := some h' }, if st == .ok then tailStr h' mid else st.name)
+    | none => (s, "bad-op")
+  | "htailmass" :: _ =>
+    match argF ws "p" with
+    | some p =>
+      let (st, h', k) := h.getTailByMass p
+      ({ s with h := some h' }, if st == .ok then tailStr h' (h'.n - k) else st.name)
+    | none => (s, "bad-op")
+  | "hdata" :: _ =>
+    let (st, h') := h.getData
+    ({ s with h := some h' }, if st == .ok then tailStr h' 0 else st.name)
+  | "hcens" :: _ =>
+    match argInt? ws "z", argF ws "phi" with
+    | some z, some phi => let (st, h') := h.declareCensoring z phi; ({ s with h := some h' }, st.name)
+    | _, _ => (s, "bad-op")
+  | "hround" :: _ => ({ s with h := some h.declareRounding }, "ok")
+  | "hsettail" :: _ =>
+    match argF ws "phi" with
+    | some phi =>
+      match h.setTail phi with
+      | .fault => (s, "fault")
+      | .val (st, h', m) => ({ s with h := some h' }, if st == .ok then s!"ok mass={fb m}" else st.name)
+    | none => (s, "bad-op")
+  | "hsettailmass" :: _ =>
+    match argF ws "p" with
+    | some p =>
+      match h.setTailByMass p with
+      | .fault => (s, "fault")
+      | .val (st, h', m) => ({ s with h := some h' }, if st == .ok then s!"ok mass={fb m}" else st.name)
+    | none => (s, "bad-op")
+  | "hexpfit" :: _ => (s, fitOut (expFitCompleteBinned h))
+  | "hgamfit" :: _ => (s, "unmodelled")
+  | "hweifit" :: _ => (s, "unmodelled")
+  | "hsxpfit" :: _ => (s, "unmodelled")
+  | _ => (s, "bad-op")
+
+def step (s : S) (line : String) : S × String :=
+  let ws := words line
+  match ws with
+  | "hnew" :: _ =>
+    match argF ws "bmin", argF ws "bmax", argF ws "w" with
+    | some bmin, some bmax, some w =>
+      let r := if (argNat? ws "full").getD 0 == 1 then Hist.createFull bmin bmax w else Hist.create bmin bmax w
+      match r with
+      | .fault => ({ s with h := none }, "fault")
+      | .val none => ({ s with h := none }, "null")
+      | .val (some h) => ({ s with h := some h }, s!"ok nb={h.nb}")
+    | _, _, _ => (s, "bad-op")
+  | "sample" :: _ => (s, "unmodelled")
+  | "data" :: _ =>
+    let xs := parseBitsList ((arg? ws "xs").getD "-")
+    ({ s with xs := xs }, s!"ok n={xs.size}")
+  | "fit" :: _ =>
+    let xs := s.xs
+    let kind := (arg? ws "kind").getD ""
+    let a := (argF ws "a").getD 0.0
+    let b := (argF ws "b").getD 0.0
+    let z := (argInt? ws "z").getD 0
+    (s, match runFit kind xs a b z with | some r => fitOut r | none => "unmodelled")
+  | op :: _ =>
+    if op.startsWith "h" then
+      match s.h with
+      | some h => stepH s ws h
+      | none => (s, "nohist")
+    else (s, "bad-op")
+  | [] => (s, "bad-op")
+
+def main : IO Unit := runDriver ({} : S) step
